@@ -334,7 +334,9 @@ func NextHopsFor(f bgp.Family) [][]netip.Addr {
 		return [][]netip.Addr{nil}
 	}
 	if f.Afi() == bgp.AFI_IP6 {
-		return [][]netip.Addr{{a("2001:db8::1")}, {a("2001:db8::1"), a("fe80::1")}}
+		// the third one: IPv6 routes over an IPv4 session (the next hop is a plain IPv4 address,
+		// written as an IPv4-mapped IPv6 address)
+		return [][]netip.Addr{{a("2001:db8::1")}, {a("2001:db8::1"), a("fe80::1")}, {a("192.0.2.1")}}
 	}
 	return [][]netip.Addr{{a("192.0.2.1")}, {a("2001:db8::1")}, {a("2001:db8::1"), a("fe80::1")}}
 }
